@@ -142,6 +142,25 @@ def _negk(k: str) -> str:
     return "-1*" + k
 
 
+def _stale_write_back(ctx: Ctx, setter: str):
+    """in the per-fill update: a call of `setter` on party B whose argument contains a getter call on B that was evaluated
+    before a call of `setter` on another party A -> that event, else None"""
+    getter = {"set_cash_amount": "get_cash_amount", "set_asset_volume": "get_asset_volume"}[setter]
+    for p in ctx.paths(UPD):
+        for holder in [p] + [bp for l in p.walk_events(True) if l.kind == "loop" for bp in l.paths]:
+            evs = [e for e in holder.events if e.kind == "call" and e.name in (setter, getter) and e.recv is not None]
+            for k, w in enumerate(evs):
+                if w.name != setter:
+                    continue
+                argts = list(w.args) + [v for _, v in w.kwargs]
+                for i, r in enumerate(evs[:k]):
+                    if r.name != getter or strip_ver(r.recv) != strip_ver(w.recv) or not any(r.term in list(subterms(a)) for a in argts):
+                        continue
+                    if any(x.name == setter and strip_ver(x.recv) != strip_ver(w.recv) for x in evs[i + 1:k]):
+                        return w
+    return None
+
+
 @rule("C05.R2", "holdings are written only by the agent's own setters and by the per-fill update", "T1 who-may-write + T2 who-may-call", floor=8)
 def r2(ctx: Ctx) -> None:
     setters = {
@@ -155,6 +174,15 @@ def r2(ctx: Ctx) -> None:
         for site in ctx.cg.sites_calling(s):
             q = site.caller.qualname
             ok = site.caller.name == "setup" and site.caller.cls is not None and ctx.program.is_subclass(site.caller.cls.name, "Agent")
+            if not ok and q == UPD and s.split(".")[1].startswith("set_") and s != "Agent.set_market_accessible":
+                # settlement written as read - compute - write back through the absolute setters: wrong exactly when a
+                # balance read for one party is written back after the other party's balance was written, because buyer
+                # and seller may be one agent (self-trade) and the second write then undoes the first (seed C05t).
+                # Without that hazard the form is left to C05.R1, which refuses what it cannot follow.
+                hz = _stale_write_back(ctx, s.split(".")[1])
+                if hz is not None:
+                    ctx.violated(site.caller, hz.node, "each party's balance is read after every earlier write of the same fill (buyer and seller can be the same agent)", "read-modify-write per party, or in-place `+=` / update_*", f"{short(hz.term)[:150]} writes back a value computed from a balance read before the other party's {s.split('.')[1]}: in a self-trade the first write is lost")
+                continue
             ctx.check(ok, site.caller, site.node, f"caller of {s}", "Agent.setup (or an override)", q)
 
 
